@@ -1,0 +1,16 @@
+//go:build verif
+
+package verifhook
+
+import (
+	"github.com/WICG/webpackage/go/internal/signingalgorithm"
+)
+
+type MockSigningAlgorithm = signingalgorithm.MockSigningAlgorithm
+type SigningAlgorithm = signingalgorithm.SigningAlgorithm
+type Verifier = signingalgorithm.Verifier
+
+var SigningAlgorithmForPrivateKey = signingalgorithm.SigningAlgorithmForPrivateKey
+var VerifierForPublicKey = signingalgorithm.VerifierForPublicKey
+var ParsePrivateKey = signingalgorithm.ParsePrivateKey
+var ParseCertificates = signingalgorithm.ParseCertificates
